@@ -5,7 +5,7 @@ MaxRes) checking the layout design; its state dump is replayed on the real seria
 get_resolution / deserialize.  B2: the real outputs, together with TLC's expected id, go back
 to TLC (Trace_Layout), which evaluates the clauses of the property on them."""
 import random
-from . import core, params, cells
+from . import core, params, cells, apa
 
 
 def enc_event(c, exp=None):
@@ -158,6 +158,14 @@ def run(v):
             raise core.MachineryError("malformed event %r" % e)
         else:
             v.drift.append({"clauses": clauses, "cell": {k: e.get(k) for k in ("r", "f", "s", "d")}, "id": e.get("id")})
+    if not quick:
+        sym = apa.run(d, v, p, rng)
+        # a refuted resolution names a layout that is not injective / not decodable for SOME S: confirm on the real
+        # code by running the C05 clauses on boundary positions of that resolution (done above for every resolution);
+        # the symbolic result alone is recorded, verdicts stay with the clauses judged on real outputs
+        for r, verdict in sym.items():
+            if verdict == "refuted":
+                v.drift.append({"what": "Apalache refuted the layout obligations for the affine form probed at this resolution", "resolution": r})
     v.exhaustive = False
     v.assumptions += ["table parameters (NF, NS, MaxRes, StartBit, FirstQuintant) are read from the imported code",
                       "cells deeper than Depth are reached only through the digit-pattern and random continuations"]
